@@ -115,6 +115,41 @@ def run(P, rep, tier):
                           'MalformedHunkError raised at [%s] does not carry %s of the line being examined'
                           % (txt, ' and '.join(([] if okline else ['the content']) + ([] if oknum else ['the 1-based number']))),
                           path=[f.short])
+    # the error object must expose exactly what the raise site handed over
+    init = mhe.find_method('__init__')
+    if init is None:
+        raise AnalysisError('MalformedHunkError.__init__ not found (anchor vanished)')
+    from sa.values import AObj
+    I2 = Interp(P)
+    st = {}
+
+    def ctor():
+        line = Unk('line', kinds=['bytes'], taint=['ARG'])
+        num = Unk('line_num', kinds=['int'], taint=['ARG'])
+        st['args'] = (line, num)
+        o = AObj(mhe)
+        I2.frames = []
+        kw = {} if I2.choose(2, 'msg') == 0 else {'msg': Unk('msg', kinds=['str'], taint=['ARG'])}
+        I2.call_function(init, [o, line, num], kw, None, self_cls=mhe)
+        return o
+    nctor = 0
+    for path in I2.explore(ctor):
+        nctor += 1
+        if nctor > 200:
+            raise AnalysisError('too many paths in MalformedHunkError.__init__')
+        if path.outcome != 'return':
+            if path.outcome == 'raise' and 'msg' in str(getattr(path.value, 'note', '') or ''):
+                continue
+            continue
+        o = path.value
+        line, num = st['args']
+        bad = [n_ for n_, a_ in (('line', line), ('line_num', num)) if o.attrs.get(n_) is not a_]
+        if bad:
+            rep.violation(r3, 'error-attrs:%s' % ','.join(bad), init.loc(),
+                          'MalformedHunkError.__init__ does not store its %s argument unchanged in the attribute of the same name: '
+                          'the error no longer names the offending line / number' % ' and '.join(bad), path=[init.short])
+        else:
+            rep.ok(r3, 'MalformedHunkError stores line and line_num unchanged (%s)' % ('default message' if nctor == 1 else 'custom message'))
     rep.floor(r3, 2)
     if count_bad:
         val, (n, broke, expect) = sorted(count_bad.items())[0]
